@@ -174,7 +174,9 @@ def predict(cfg, rng, q=None):
     if q is None:
         q, _ = build(cfg)
     tail = spectral_tail(q)
-    if not tail < 1e-10:
+    # the identities hold for the continuum solution; on a grid that does not resolve the profiles they hold up to the discretisation error, which is
+    # measured by the spectral tail (pinned tree: residual / scale <= 0.25 * tail over fresh, corpus and history-built objects) -- beyond 1e-3 nothing is claimed
+    if not tail < 1e-3:
         return out, 0, False
     res, scale = residuals(q, rng)
     tol = max(1e-9, 1e2 * tail)
